@@ -209,6 +209,10 @@ pub struct RunCfg {
     /// (skipping s elements, which the chunk iterator must dispose of itself)
     #[serde(default)]
     pub consume_nth: usize,
+    /// wrapped-iterator kinds only: the probe is NOT fused; after its first None (after `len`
+    /// elements) it would yield this many further elements if asked again
+    #[serde(default)]
+    pub tail: usize,
     pub sim: SimCfg,
 }
 
@@ -1173,19 +1177,21 @@ pub fn execute(cfg: &RunCfg, run_no: u32) -> RunRecord {
         _ => None,
     };
     // ranges have no elements with identity (and may be astronomically long)
-    let ledger_n = if cfg.kind.is_range() { 0 } else { n };
+    let tail = if cfg.kind.is_iter() { cfg.tail } else { 0 };
+    let ledger_n = if cfg.kind.is_range() { 0 } else { n + tail };
     elems::ledger_reset(ledger_n, run_no, clone_panic);
     elems::probe_reset(probe_panic);
     alloc::reset();
     alloc::enable(true);
     let heap = cfg.heap_bytes;
     let mk = |i: u32| Elem::new(i, run_no, seed, heap);
+    let total = n + tail;
     let mk_vec = || {
         let _t = alloc::track();
-        (0..n as u32).map(mk).collect::<Vec<Elem>>()
+        (0..total as u32).map(mk).collect::<Vec<Elem>>()
     };
     let mk_plain = || {
-        (0..n as u32)
+        (0..total as u32)
             .map(|i| Plain {
                 id: i,
                 payload: elems::payload_of(seed, i as u64),
@@ -1265,7 +1271,7 @@ pub fn execute(cfg: &RunCfg, run_no: u32) -> RunRecord {
             let data = mk_vec();
             let it = {
                 let _t = alloc::track();
-                Probe::new(data.into_iter(), n, cfg.hint).into_con_iter()
+                probe_of(data.into_iter(), n, cfg).into_con_iter()
             };
             drive(cfg, it)
         }
@@ -1273,7 +1279,7 @@ pub fn execute(cfg: &RunCfg, run_no: u32) -> RunRecord {
             let data = mk_vec();
             rec.base_addr = data.as_ptr() as usize;
             rec.elem_size = std::mem::size_of::<Elem>();
-            let o = drive(cfg, Probe::new(data.iter(), n, cfg.hint).into_con_iter());
+            let o = drive(cfg, probe_of(data.iter(), n, cfg).into_con_iter());
             check_source(&mut rec, &data, seed);
             o
         }
@@ -1287,7 +1293,7 @@ pub fn execute(cfg: &RunCfg, run_no: u32) -> RunRecord {
             let data = mk_vec();
             let o = drive(
                 cfg,
-                Probe::new(data.iter(), n, cfg.hint).into_con_iter().cloned(),
+                probe_of(data.iter(), n, cfg).into_con_iter().cloned(),
             );
             check_source(&mut rec, &data, seed);
             o
@@ -1302,7 +1308,7 @@ pub fn execute(cfg: &RunCfg, run_no: u32) -> RunRecord {
             let data = mk_plain();
             let o = drive(
                 cfg,
-                Probe::new(data.iter(), n, cfg.hint).into_con_iter().copied(),
+                probe_of(data.iter(), n, cfg).into_con_iter().copied(),
             );
             rec.source_intact = plain_intact(&data, seed);
             o
@@ -1340,7 +1346,7 @@ pub fn execute(cfg: &RunCfg, run_no: u32) -> RunRecord {
             let data = mk_plain();
             rec.base_addr = data.as_ptr() as usize;
             rec.elem_size = std::mem::size_of::<Plain>();
-            let o = drive(cfg, Probe::new(data.iter(), n, cfg.hint).into_con_iter());
+            let o = drive(cfg, probe_of(data.iter(), n, cfg).into_con_iter());
             rec.source_intact = plain_intact(&data, seed);
             o
         }
@@ -1355,6 +1361,15 @@ pub fn execute(cfg: &RunCfg, run_no: u32) -> RunRecord {
     rec.leaked = alloc::live();
     rec.unexpected_panics = take_panics();
     rec
+}
+
+fn probe_of<I: Iterator>(inner: I, n: usize, cfg: &RunCfg) -> Probe<I> {
+    let p = Probe::new(inner, n, cfg.hint);
+    if cfg.tail > 0 {
+        p.not_fused()
+    } else {
+        p
+    }
 }
 
 fn source_state(data: &[Elem], seed: u64) -> (bool, u32) {
